@@ -242,3 +242,11 @@ Fixpoint first_pos (o : nat) (ids : list nat) : nat :=
   | x :: r => if x =? o then 0 else S (first_pos o r)
   end.
 Definition id_classes (ids : list nat) : list nat := map (fun o => first_pos o ids) ids.
+
+(* ============================================================================================== *)
+(* HPSpace (pi is a symbol: any element of the field)                                              *)
+(* ============================================================================================== *)
+(*  size = int(12*nside*nside);  scalar_dvol = np.pi/(3*nside*nside);  total_volume = size*dvol      *)
+Definition hp_size (nside : nat) : nat := 12 * nside * nside.
+Definition hp_dvol (pi : Qc) (nside : nat) : Qc := (pi / (qn 3 * qn nside * qn nside))%Qc.
+Definition hp_total (pi : Qc) (nside : nat) : Qc := (qn (hp_size nside) * hp_dvol pi nside)%Qc.
